@@ -6,6 +6,7 @@ RP : TLC generates abstract models / documents with the expected outcome compute
      transformers and the driver compares structurally.
 """
 import json
+import re
 
 from vlib import *
 
@@ -320,6 +321,107 @@ def listener_validate(chk, binary, sc, recs, limit):
     return len(traces) if not res.violated else 0
 
 
+DOC_TRACE_CFG = """SPECIFICATION DSpec
+CONSTANTS
+  JobAt <- TJobAt
+  NumJobs = 0
+  Mode = "trace"
+  DocJobAt <- TJobAt
+  NumDocJobs = 0
+CHECK_DEADLOCK FALSE
+INVARIANTS PostStateOK NotStuck PanicOK ResultTypesOK ResultCondsOK ResultExtsOK ResultErrsOK WalkOK
+"""
+DOC_MC_CFG = """SPECIFICATION DSpec
+CONSTANTS
+  JobAt <- TJobAt
+  NumJobs = 0
+  Mode = "mc"
+  DocJobAt <- TDocJobAt
+  NumDocJobs <- TNumDocJobs
+CHECK_DEADLOCK FALSE
+INVARIANTS NeverPanics TypeOK ValidDocYieldsModelWritten ViolationRaisesItsError NotStuck
+"""
+
+
+def doc_model_check(chk, sc, tier):
+    """Design level: the whole-listener automaton of spec/DslDoc.tla, driven by the callback sequences spec/DslWalk.tla derives from the
+    grammar, yields the model written for every valid document of the universe (Impl refines Ideal, C03) and raises its error for every
+    violation of the catalogue the listener has to catch (C09). No real code is involved: a failure here is a defect of the specification."""
+    ndocs = 600 if tier == "quick" else 2000
+    nsites = 24 if tier == "quick" else 120
+    defs = ("TJobAt(i) == <<>>\nTNumDocJobs == %d\n"
+            "TDocJobAt(i) == IF i <= %d THEN [doc |-> i - 1, viol |-> 0, vsite |-> 0]\n"
+            "                ELSE LET k == i - %d - 1 IN [doc |-> k %% 9, viol |-> 5 + ((k \\div 9) %% 5), vsite |-> k \\div 45]"
+            % (ndocs + 45 * nsites, ndocs, ndocs))
+    res = run_tlc("DslDoc", DOC_MC_CFG, sc, defs=defs, timeout=3000, cache=True)
+    if res.violated:
+        raise Infra("design-level failure of spec/DslDoc.tla (%s): the listener automaton does not refine ModelOf on the document universe\n%s" % (res.violated, res.tail[-1500:]))
+    log("DslDoc (mc): %d valid documents and %d listener-level violations walked through the listener automaton, %d states, invariants hold%s"
+        % (ndocs, 45 * nsites, res.distinct, " (cached)" if res.cached else ""))
+    chk.add("doc_automaton_states", res.distinct)
+    chk.cov["states"] = chk.cov.get("states", 0) + res.distinct
+    chk.cov["transitions"] = chk.cov.get("transitions", 0) + res.generated
+
+
+def _ascii(o):
+    if isinstance(o, str):
+        return o if o.isascii() else "".join(c if ord(c) < 128 else "\\u{%04x}" % ord(c) for c in o)
+    if isinstance(o, list):
+        return [_ascii(x) for x in o]
+    if isinstance(o, dict):
+        return {k: _ascii(v) for k, v in o.items()}
+    return o
+
+
+def layout_docs(jobs, recs):
+    docs = []
+    for j in jobs:
+        r = recs[j["id"]]
+        src = ["none", 0, 0]
+        if r["valid"]:
+            src = ["kw", j["kw"][0], j["kw"][1]] if "kw" in j else ["wide", 0, 0] if "wide" in j else ["doc", j["doc"], 0]
+        if "wide" in j or j["style"].get("pad"):
+            continue        # (100 KiB lines: nothing new for the listener, slow to ship through JSON)
+        docs.append({"id": r["id"], "text": r["text"], "modular": r["modular"], "src": src})
+    return docs
+
+
+def doc_validate(chk, binary, sc, docs, tag, corrupt=None):
+    """Impl binding of the parser, whole document: every listener callback of the real parse (verif hook VerifDocTrace: what the callback
+    read from its context + projection of the listener state after it) is validated by TLC against the automaton of spec/DslDoc.tla:
+    PostStateOK after every event, NotStuck, PanicOK, Result{Types,Conds,Exts,Errs}OK (accumulated model, extension names, listener-raised errors with
+    message and position) and, for valid documents (src), WalkOK (the callback sequence is the one spec/DslWalk.tla derives from the grammar).
+    A rejected trace is DRIFT of the Impl layer (reported); the verdict of the properties comes from the Ideal comparison."""
+    inp, tmp, out = sc.path("doc.in.ndjson"), sc.path("doc.tmp.ndjson"), sc.path("doc_traces.ndjson")
+    write_ndjson(inp, [{"id": d["id"], "text": d["text"], "modular": False} for d in docs])
+    run_harness(binary, ["doc-record", "-in", inp, "-out", tmp])
+    traces = read_ndjson(tmp)
+    if len(traces) != len(docs) or not any(t["events"] for t in traces):
+        raise Infra("the document hook recorded %d traces for %d documents (hook removed or not compiled in?)" % (len(traces), len(docs)))
+    for t, d in zip(traces, docs):
+        t["src"] = d["src"]
+    if corrupt:
+        corrupt(traces)       # (bin/selftest: one recorded field changed)
+    # TLC interns strings; beyond ASCII that is unreliable (SubSeq of a string holding U+0BE7 gave a string that prints the same and
+    # compares unequal, depending on what had been interned before): every non-ASCII character is handed over as the ASCII text \u{hex},
+    # the same way wherever it occurs, so equalities and the positions of line breaks are preserved
+    write_ndjson(out, [_ascii(t) for t in traces])
+    res = run_tlc("DslDoc", DOC_TRACE_CFG, sc, data_files={"doc_traces.ndjson": out}, defs="TJobAt(i) == <<>>", timeout=3000)
+    events = sum(len(t["events"]) for t in traces)
+    if res.violated:
+        bad = traces[res.ints["ri"] - 1] if "ri" in res.ints else None
+        chk.drift.append({"doc_listener": "TLC rejects a recorded whole-document listener trace (%s): %s" % (tag, res.violated),
+                          "document": next((d["text"] for d in docs if bad and d["id"] == bad["id"]), None), "trace": bad, "detail": res.tail[-800:] if not bad else ""})
+        log("document traces (%s): %d documents / %d callbacks, REJECTED by the listener automaton (%s) - drift, not a verdict" % (tag, len(traces), events, res.violated))
+        return 0
+    log("document traces (%s): %d documents / %d listener callbacks validated by TLC against the whole-listener automaton (%d states)" % (tag, len(traces), events, res.distinct))
+    chk.add("doc_traces_validated", len(traces))
+    chk.add("doc_events_validated", events)
+    chk.cov["states"] = chk.cov.get("states", 0) + res.distinct
+    chk.cov["transitions"] = chk.cov.get("transitions", 0) + res.generated
+    return len(traces)
+
+
 def token_validate(chk, binary, sc, recs, limit):
     """Binding of the position function of the layout specification: the tokens the real lexer produced (verif hook after
     ParseDSL, i.e. after the comment pre-pass) are aligned with the lexemes TLC placed: every lexeme must start exactly
@@ -394,6 +496,8 @@ def run_c03(chk, binary, sc, tier):
                 chk.violation("module file: %s attributed to module %r, the header says %r" % (bad[0][0], bad[0][1], want), dict(rep, attributions=got))
     texts = {recs[j["id"]]["text"] for j in jobs}
     nlst = listener_validate(chk, binary, sc, recs, 100000)
+    doc_model_check(chk, sc, tier)
+    nlst += doc_validate(chk, binary, sc, layout_docs(jobs[::4] if tier == "quick" else jobs, recs), "grammatical layouts")
     chk.cov.update(traces_validated_against_impl=nlst, evaluations=len(jobs), distinct_nontrivial=len(texts), documents=len(jobs),
                    rule="documents = indexed family (3 name sets incl. keywords and dotted/dashed identifiers x model / deep model / module file x rewrite trees x position of the direct assignment x "
                         "redundant parentheses x restriction and condition variants); layouts = every single style dimension, every single local override on a block of documents, "
@@ -484,6 +588,8 @@ def run_c09(chk, binary, sc, tier):
             chk.violation("rejected, but a model was returned together with the error (%s)" % r["viol"], rep)
         elif not p.get("errs"):
             chk.violation("rejected without an error value (%s)" % r["viol"], rep)
+    doc_model_check(chk, sc, tier)
+    doc_validate(chk, binary, sc, layout_docs(jobs[::3] if tier == "quick" else jobs, recs), "catalogue violations")
     chk.cov.update(traces_validated_against_impl=len(jobs), evaluations=len(jobs), distinct_nontrivial=len({recs[j["id"]]["text"] for j in jobs}), per_violation=kinds,
                    rule="13 structural violations x injection sites (relation index, operand position, nesting depth 0-2, operator pair, rewrite shape of the duplicate, parameter index) x documents "
                         "(3 name sets, model / deep / module) + the same under random layouts; distinct by text")
